@@ -5,7 +5,7 @@ LEVEL = "exploration"
 RUNS = {"quick": 3000, "thorough": 120000}
 BUDGET_S = {"quick": 50, "thorough": 840}
 CHUNK = 50
-RULE = "placeholder"
+RULE = ("One evaluation = one seeded history on Slurm/SGE/LSF/local pool with adversarial execution (any legal start/finish order, success or any failure kind, scheduler-side cancels, prerequisites submitted in earlier invocations) and with scheduler transitions injected BETWEEN the submission commands of a running `gwf run`. Layer 1: the dependency expression received (afterok list, hold_jid list, done() conjunction, deps=[...]) parses in the simulated scheduler's own grammar to exactly the ids of the plan's prerequisites. Layer 2 (invariant of the composition): at every job start, every job that was producing the target's inputs at its submission instant has finished, and on Slurm/LSF/local finished successfully. Non-trivial = at least one job with in-flight producers started.")
 PROFILE = dict(
     nontrivial_probes=["job_starts_with_producers"],
     backends=["slurm", "slurm", "sge", "lsf", "local", "local"],
